@@ -574,4 +574,274 @@ Section Top.
   Proof.
     destruct HRt as [_ [_ [_ [_ [Hin _]]]]]. apply roots_in_frefs in Hin. apply Hrt in Hin. lia.
   Qed.
+
+  Lemma top_prefs_E : forall y i o, In (y, i) E -> In (PRef o) (List.map snd (i_props i)) -> o < nr.
+  Proof.
+    intros y i o Hin Ho. destruct (fentry_tmap _ _ _ _ _ _ Hin) as [x [i0 [Hin0 [_ Hp]]]].
+    destruct (top_fentry _ _ Hin0) as [i' [Hin' [_ [_ [_ Hp']]]]].
+    rewrite Hp, Hp' in Ho. apply in_map_iff in Ho. destruct Ho as [[k v] [Hv Hkv]]. cbn in Hv. subst v.
+    assert (Hpol : In (k, PRef o) (props_of_list (i_props i'))).
+    { unfold cprops in Hkv. destruct (psi (phi x)); [|exact Hkv].
+      apply In_upd in Hkv. destruct Hkv as [[_ Hd]|Hkv]; [discriminate|exact Hkv]. }
+    apply In_props_of_list in Hpol. apply Hps. apply (In_fpvals _ _ rnone). exists x, i'. split; [exact Hin'|].
+    apply in_map_iff. exists (k, PRef o). split; [reflexivity|exact Hpol].
+  Qed.
+
+  Lemma top_copies_uids :
+    fuids copies = fuids (List.map (tmap Fpre) subs) /\ NoDup (fuids copies) /\
+    forall u, In u (fuids copies) -> ~ In u (fuids (a_trees ta)) /\ u < nu'.
+  Proof.
+    assert (E1 : fuids copies = fuids (List.map (tmap Fpre) subs)).
+    { unfold copies, Fpost, Fpre. apply (fuids_tmap_post phi (cprops psi phi) (vmap cv)).
+      intros ps. apply get_uid_vmap. intros v. apply clone_val_uidsafe. }
+    assert (P : Permutation (fuids (List.map (tmap Fpre) subs)) (flat_map (fun t0 => ruid (tmap Fpre t0)) L)).
+    { eapply Permutation_trans; [apply bfs_uids_perm|]. unfold Fpre. rewrite bfs_all_tmap, flat_map_map. apply Permutation_refl. }
+    destruct top_alloc as [Hnum _].
+    destruct (Plan_uids psi phi L (fuids (a_trees ta)) nu nr nu' Hnum top_plan) as [Hnd1 Hall].
+    { intros u Hu. apply Hut. apply mem_In. exact Hu. }
+    { intros t' u Ht' Hu. eapply top_L_uid; eassumption. }
+    split; [exact E1|]. rewrite E1. split.
+    - eapply Permutation_NoDup; [apply Permutation_sym; exact P|exact Hnd1].
+    - intros u Hu. apply (Permutation_in _ P) in Hu. destruct (Hall u Hu) as [H1 H2].
+      split; [apply mem_false_In; exact H1|exact H2].
+  Qed.
+
+  Lemma top_run : exists D3,
+    dom_clone src t nu nr rs = Ok (D3, nu', nr', nseq nr (length rs)) /\
+    (forall y i, In (y, i) E -> lookup y (d_insts D3) = Some (set_props i (vmap cv (i_props i)))) /\
+    (forall y, ~ In y (keys E) -> lookup y (d_insts D3) = lookup y (d_insts t)) /\
+    (forall u, mem u (d_uids D3) = mem u (d_uids t) || mem u (fuids (List.map (tmap Fpre) subs))) /\
+    d_root D3 = d_root t /\ NoDup (keys (d_insts D3)).
+  Proof.
+    destruct top_alloc as [Hnum [Hnr' [HrwN HrwS]]].
+    destruct top_roots as [Hroots Hlen].
+    set (q := List.map (pair rnone) subs).
+    assert (Hq : List.map snd q = subs) by apply map_snd_pairs.
+    assert (Hrn : lookup rnone (d_insts t) = None).
+    { destruct HRt as [Hext [_ [Hn0 _]]]. rewrite Hext. apply lookup_fflat_notin. exact Hn0. }
+    destruct (clone_loop_spec phi psi (length rs + S (length rs * dom_size s)) src t [] nu nr nr q nu')
+      as [D2 [rw2 [Hloop Hpost]]].
+    { rewrite Hq.
+      assert (Hle : (fsize subs <= dom_size s)%nat).
+      { rewrite <- length_frefs. unfold dom_size. rewrite <- (map_length fst (d_insts s)).
+        apply NoDup_incl_length; [exact Hnd|]. intros x Hx. destruct (top_sub_refs x Hx) as [Hx' _].
+        destruct (lookup_fflat_in rnone _ _ Hx') as [i Hi]. destruct HRs as [Hext _].
+        fold (aflat sa) in Hi. rewrite <- Hext in Hi. apply lookup_In in Hi. exact (In_keys _ _ _ Hi). }
+      destruct rs as [|r0 rs0]; [destruct subs; [cbn; lia|discriminate]|]. cbn [length]. nia. }
+    { rewrite Hq. exact Hnum. }
+    { rewrite Hq. apply (Plan_used_ext psi L (fuids (a_trees ta))); [|exact top_plan].
+      intros u. destruct HRt as [_ [_ [_ [_ [_ [Hm _]]]]]]. symmetry. apply Hm. }
+    { rewrite Hq, <- Hs. intros sub Hsub x i Hin. destruct (top_sub_entry sub Hsub rnone x i Hin) as [i' [Hin' Hsb]].
+      exists i'. split; [apply (Rep_lookup_In s sa); assumption|exact Hsb]. }
+    { lia. }
+    { rewrite Hq. intros x Hx. exact (proj2 (top_sub_refs x Hx)). }
+    { intros cp t' Hin. left. unfold q in Hin. apply in_map_iff in Hin. destruct Hin as [k [Hk _]]. congruence. }
+    { exact Hrn. }
+    assert (Hcq : cq q = List.map (pair rnone) rs ++ []).
+    { rewrite app_nil_r, <- Hroots. unfold cq, q. rewrite !map_map. reflexivity. }
+    rewrite Hcq in Hloop. apply roots_then_loop in Hloop.
+    destruct Hloop as [D1 [c1 [nu1 [nr1 [Hcr Hloop2]]]]].
+    destruct Hpost as [HA [HB [HC [HR [HN [HF1 [HF2 HG]]]]]]].
+    assert (HqE : qents phi psi q = E) by (unfold q, E, Fpre; apply qents_pairs).
+    rewrite HqE in HA, HB. rewrite Hq in HC, HF1, HF2. fold L in HF1, HF2.
+    assert (Hrw_eq : forall o, lookup o rw2 = lookup o rw).
+    { intros o. destruct (in_dec N.eq_dec o (List.map troot L)) as [Hin|Hnin].
+      - apply in_map_iff in Hin. destruct Hin as [t' [<- Ht']]. rewrite (HF1 t' Ht'), (HrwS t' Ht'). reflexivity.
+      - rewrite (HF2 o Hnin), (HrwN o Hnin). reflexivity. }
+    assert (Hkeys2 : NoDup (keys rw2)) by (apply HG; constructor).
+    assert (Hrw2_char : forall o n, In (o, n) rw2 -> exists t', In t' L /\ troot t' = o /\ n = phi o).
+    { intros o n Hin. apply (In_lookup _ _ _ Hkeys2) in Hin.
+      destruct (in_dec N.eq_dec o (List.map troot L)) as [Hi|Hnin].
+      - apply in_map_iff in Hi. destruct Hi as [t' [Ho Ht']]. exists t'. split; [exact Ht'|]. split; [exact Ho|].
+        subst o. rewrite (HF1 t' Ht') in Hin. congruence.
+      - rewrite (HF2 o Hnin) in Hin. discriminate. }
+    set (news := List.map snd rw2).
+    assert (Hnews_sub : forall n, In n news -> In n (keys E)).
+    { intros n Hn. unfold news in Hn. apply in_map_iff in Hn. destruct Hn as [[o n'] [Hn' Hin]]. cbn in Hn'. subst n'.
+      destruct (Hrw2_char o n Hin) as [t' [Ht' [Ho Hn]]]. subst n. rewrite top_keys_E. apply in_map.
+      apply (Permutation_in _ (Permutation_sym (bfs_roots_perm subs))). rewrite <- Ho. apply in_map. exact Ht'. }
+    assert (Hnews_all : forall y, In y (keys E) -> In y news).
+    { intros y Hy. rewrite top_keys_E in Hy. apply in_map_iff in Hy. destruct Hy as [x [<- Hx]].
+      apply In_frefs_bfs in Hx. destruct Hx as [t' [Ht' <-]]. pose proof (HF1 t' Ht') as Hl.
+      apply lookup_In in Hl. unfold news. apply in_map_iff. exists (troot t', phi (troot t')). split; [reflexivity|exact Hl]. }
+    assert (Hnews_nd : NoDup news).
+    { apply NoDup_map_snd; [exact Hkeys2|]. intros k k' v H1 H2.
+      destruct (Hrw2_char k v H1) as [t1 [Ht1 [Hk1 Hv1]]]. destruct (Hrw2_char k' v H2) as [t2 [Ht2 [Hk2 Hv2]]].
+      subst k k'. apply (numbered_inj phi L nr t1 t2 Hnum top_L_nodup Ht1 Ht2). congruence. }
+    assert (HE_entry : forall y, In y (keys E) -> exists i, In (y, i) E).
+    { intros y Hy. unfold keys in Hy. apply in_map_iff in Hy. destruct Hy as [[y' i] [Hy' Hin]]. cbn in Hy'. subst y'.
+      exists i. exact Hin. }
+    assert (Hnews_in : forall n, In n news -> exists i, lookup n (d_insts D2) = Some i).
+    { intros n Hn. destruct (HE_entry n (Hnews_sub n Hn)) as [i Hin]. exists i. apply HA. exact Hin. }
+    assert (Hold2 : forall o, ~ In o (keys E) -> lookup o (d_insts D2) = lookup o (d_insts t)).
+    { intros o Ho. rewrite (HB o Ho). destruct (N.eq_dec o rnone) as [->|Hne]; [rewrite Hrn; reflexivity|].
+      destruct (lookup o (d_insts t)) as [i|]; [|reflexivity]. cbn [option_map]. f_equal.
+      unfold addkids. rewrite (qkids_none phi o q).
+      - rewrite app_nil_r. destruct i; reflexivity.
+      - intros ct Hct. unfold q in Hct. apply in_map_iff in Hct. destruct Hct as [k [<- _]]. cbn [fst]. congruence. }
+    destruct (rr_collect_spec D2 news Hnews_in) as [ex [Hex Hexspec]].
+    destruct (rr_apply_spec rw2 ex news D2 Hnews_nd Hnews_in) as [D3 [Happ [HR3 [HU3 [Hin3 [Hout3 Hk3]]]]]].
+    exists D3. split.
+    { unfold dom_clone. unfold ctx0.
+      change (match src with Some s0 => s0 | None => t end) with (srcof src t). rewrite <- Hs.
+      rewrite Hcr. cbn [rbind]. rewrite Hloop2. cbn [rbind]. unfold rewrite_refs. cbn [c_rewrites].
+      fold news. rewrite Hex, Happ. cbn [of_opt rbind]. rewrite Hq, <- Hnr'. reflexivity. }
+    assert (Hhas : forall o, o < nr -> (has o (d_insts D2) = true <-> In o (frefs (a_trees ta)))).
+    { intros o Ho. assert (Hno : ~ In o (keys E)) by (intros H; apply top_E_range in H; lia).
+      unfold has. rewrite (Hold2 o Hno). destruct HRt as [Hext _]. rewrite Hext. unfold aflat.
+      destruct (lookup o (flat_map (tflat rnone) (a_trees ta))) as [i|] eqn:El.
+      - split; [intros _|reflexivity]. apply lookup_In in El. eapply In_fflat_frefs. exact El.
+      - split; [discriminate|]. intros Hin. destruct (lookup_fflat_in rnone _ _ Hin) as [i Hi]. congruence. }
+    split; [|split; [|split; [|split]]].
+    - intros y i Hin. pose proof (HA y i Hin) as Hl2.
+      assert (Hy : In y news) by (apply Hnews_all; exact (In_keys _ _ _ Hin)).
+      rewrite (Hin3 y i Hy Hl2). do 2 f_equal. apply vmap_ext_in. intros v Hv.
+      destruct v as [o|u|w]; [|reflexivity|reflexivity]. unfold cv. cbn [rewrite_val clone_val].
+      rewrite Hrw_eq. destruct (lookup o rw); [reflexivity|].
+      pose proof (top_prefs_E y i o Hin Hv) as Ho.
+      assert (Hiff : In o ex <-> In o (frefs (a_trees ta))).
+      { rewrite Hexspec, <- (Hhas o Ho). split.
+        - intros [n [j [_ [_ [_ H]]]]]. exact H.
+        - intros H. exists y, i. repeat split; assumption. }
+      destruct (mem o ex) eqn:E1; destruct (mem o (frefs (a_trees ta))) eqn:E2; try reflexivity; exfalso.
+      + apply mem_In in E1. apply mem_false_In in E2. tauto.
+      + apply mem_false_In in E1. apply mem_In in E2. tauto.
+    - intros y Hy. rewrite Hout3 by (intros H; apply Hy, Hnews_sub, H). apply Hold2. exact Hy.
+    - intros u. rewrite HU3. apply HC.
+    - rewrite HR3. exact HR.
+    - apply Hk3, HN. destruct HRt as [_ [_ [_ [_ [_ [_ [_ H]]]]]]]. exact H.
+  Qed.
+
+  Let ta2 := mkADom (a_root ta) (a_trees ta ++ copies).
+
+  Lemma top_aflat : aflat ta2 = aflat ta ++ flat_map (tflat rnone) copies.
+  Proof. unfold aflat, ta2. cbn [a_trees]. apply flat_map_app. Qed.
+
+  Lemma top_Epost : flat_map (tflat rnone) copies = List.map (post_entry (vmap cv)) E.
+  Proof. unfold copies, Fpost, E, Fpre. apply (fflat_tmap_post phi (cprops psi phi) (vmap cv)). Qed.
+
+  Lemma top_bounds :
+    nu <= nu' /\ nr <= nr' /\ uids_below nu' ta2 /\ refs_below nr' ta2 /\ prefs_below nr' ta2 /\ props_nodup ta2.
+  Proof.
+    destruct top_alloc as [Hnum [Hnr' [HrwN HrwS]]].
+    assert (Hnu : nu <= nu') by (eapply Plan_mono; exact top_plan).
+    assert (Hnr : nr <= nr') by lia.
+    destruct top_copies_uids as [_ [_ Hcu]].
+    split; [exact Hnu|]. split; [exact Hnr|]. split; [|split; [|split]].
+    - intros u Hu. unfold ta2 in Hu. cbn [a_trees] in Hu. rewrite fuids_app in Hu. apply in_app_or in Hu.
+      destruct Hu as [Hu|Hu]; [apply Hut in Hu; lia|exact (proj2 (Hcu u Hu))].
+    - intros r Hr. unfold ta2 in Hr. cbn [a_trees] in Hr. rewrite frefs_app in Hr. apply in_app_or in Hr.
+      destruct Hr as [Hr|Hr]; [apply Hrt in Hr; lia|].
+      rewrite top_keys_copies, <- top_keys_E in Hr. apply top_E_range in Hr. lia.
+    - intros r Hr. unfold ta2 in Hr. cbn [a_trees] in Hr. rewrite fpvals_app in Hr. apply in_app_or in Hr.
+      destruct Hr as [Hr|Hr]; [apply Hpt in Hr; lia|].
+      apply (In_fpvals _ _ rnone) in Hr. destruct Hr as [y [i [Hin Hv]]].
+      unfold copies, Fpost in Hin. destruct (fentry_tmap _ _ _ _ _ _ Hin) as [x [i0 [_ [_ Hp]]]].
+      rewrite Hp in Hv. apply In_vmap_vals in Hv. destruct Hv as [v [_ Hv]].
+      destruct v as [o|u|w]; [|discriminate|discriminate]. unfold cv in Hv. cbn [clone_val] in Hv.
+      destruct (lookup o rw) as [n|] eqn:El.
+      + inversion Hv; subst r.
+        destruct (in_dec N.eq_dec o (List.map troot L)) as [Hi|Hni]; [|rewrite (HrwN o Hni) in El; discriminate].
+        apply in_map_iff in Hi. destruct Hi as [t' [<- Ht']]. rewrite (HrwS t' Ht') in El. inversion El; subst n.
+        exact (proj2 (top_L_range t' Ht')).
+      + destruct (mem o (frefs (a_trees ta))) eqn:Em; inversion Hv; subst r.
+        * apply mem_In in Em. apply Hrt in Em. lia.
+        * pose proof top_nr_pos. unfold rnone. lia.
+    - intros x i Hin. rewrite top_aflat in Hin. apply in_app_or in Hin. destruct Hin as [Hin|Hin]; [eapply Hnt; exact Hin|].
+      unfold copies, Fpost in Hin. destruct (fentry_tmap _ _ _ _ _ _ Hin) as [x0 [i0 [_ [_ Hp]]]].
+      rewrite Hp, keys_vmap. apply NoDup_keys_cprops.
+  Qed.
+
+  Lemma top_final : exists t',
+    dom_clone src t nu nr rs = Ok (t', nu', nr', nseq nr (length rs)) /\ Rep t' ta2.
+  Proof.
+    destruct top_run as [D3 [Hrun [Hin3 [Hout3 [HC [HR HK]]]]]]. exists D3. split; [exact Hrun|].
+    destruct HRt as [Hext [Hndr [Hn0 [Hroot [Hrin [Hmem [Hndu _]]]]]]].
+    destruct top_copies_uids as [E1 [Hcnd Hcu]].
+    assert (HndC : NoDup (keys (flat_map (tflat rnone) copies))).
+    { rewrite keys_fflat, top_keys_copies. apply top_newrefs_nodup. }
+    unfold Rep. split; [|split; [|split; [|split; [|split; [|split; [|split]]]]]].
+    - intros x. rewrite top_aflat, lookup_app. destruct (in_dec N.eq_dec x (keys E)) as [Hx|Hx].
+      + pose proof (top_E_range x Hx) as Hrange.
+        assert (Hnone : lookup x (aflat ta) = None).
+        { apply lookup_fflat_notin. intros H. apply Hrt in H. lia. }
+        rewrite Hnone. unfold keys in Hx. apply in_map_iff in Hx. destruct Hx as [[x' i] [Hx' Hin]]. cbn in Hx'. subst x'.
+        rewrite (Hin3 x i Hin). symmetry. apply In_lookup; [exact HndC|].
+        rewrite top_Epost. apply in_map_iff. exists (x, i). split; [reflexivity|exact Hin].
+      + rewrite (Hout3 x Hx), Hext. destruct (lookup x (aflat ta)) as [i|]; [reflexivity|].
+        symmetry. apply lookup_fflat_notin. rewrite top_keys_copies, <- top_keys_E. exact Hx.
+    - unfold ta2. cbn [a_trees]. rewrite frefs_app. apply NoDup_app_intro; [exact Hndr| |].
+      + rewrite top_keys_copies. apply top_newrefs_nodup.
+      + intros x H1 H2. apply Hrt in H1. rewrite top_keys_copies, <- top_keys_E in H2. apply top_E_range in H2. lia.
+    - unfold ta2. cbn [a_trees]. rewrite frefs_app. intros H. apply in_app_or in H. destruct H as [H|H]; [contradiction|].
+      rewrite top_keys_copies, <- top_keys_E in H. apply top_E_range in H. pose proof top_nr_pos. unfold rnone in H. lia.
+    - rewrite HR. exact Hroot.
+    - unfold ta2. cbn [a_trees a_root]. rewrite map_app. apply in_or_app. left. exact Hrin.
+    - intros u. unfold ta2. cbn [a_trees]. rewrite (HC u), fuids_app, mem_app, Hmem, E1. reflexivity.
+    - unfold ta2. cbn [a_trees]. rewrite fuids_app. apply NoDup_app_intro; [exact Hndu|exact Hcnd|].
+      intros u H1 H2. exact (proj1 (Hcu u H2) H1).
+    - exact HK.
+  Qed.
 End Top.
+
+(* ---- the refinement theorems (corrected statements, see the report at the end of this file) ---- *)
+
+Lemma clone_generic src s t sa ta nu nr rs ta' nu' nr' roots :
+  s = srcof src t -> Rep s sa -> Rep t ta ->
+  uids_below nu sa -> uids_below nu ta -> refs_below nr sa -> refs_below nr ta ->
+  prefs_below nr sa -> prefs_below nr ta -> props_nodup sa -> props_nodup ta ->
+  a_clone_p sa ta nu nr rs = Some (ta', nu', nr', roots) ->
+  exists t', dom_clone src t nu nr rs = Ok (t', nu', nr', roots) /\ Rep t' ta' /\
+             uids_below nu' ta' /\ refs_below nr' ta' /\ prefs_below nr' ta' /\ props_nodup ta' /\
+             nu <= nu' /\ nr <= nr'.
+Proof.
+  intros Hs HRs HRt Hus Hut Hrs Hrt Hps Hpt Hns Hnt H.
+  destruct (a_clone_p_inv _ _ _ _ _ _ _ _ _ H) as [subs [rw [asg [Hfind [Hnd [Halloc [Hsettle [Hta' Hroots]]]]]]]].
+  destruct (top_final src s t sa ta nu nr rs Hs HRs HRt Hus Hut Hrs Hrt Hps Hns subs rw asg nu' nr'
+              Hfind Hnd Halloc Hsettle) as [t' [Hrun HRep]].
+  pose proof (top_bounds t sa ta nu nr rs HRt Hus Hut Hrt Hpt Hns Hnt subs rw asg nu' nr'
+              Hfind Hnd Halloc Hsettle) as [B1 [B2 [B3 [B4 [B5 B6]]]]].
+  assert (Hr : roots = nseq nr (length rs)).
+  { destruct (top_alloc nr subs rw nr' Hnd Halloc) as [Hnum _].
+    destruct (top_roots sa rs subs Hfind) as [_ Hlen].
+    rewrite Hroots, <- Hlen. apply numbered_roots. exact Hnum. }
+  subst ta'. rewrite Hr. exists t'. split; [exact Hrun|]. split; [exact HRep|].
+  split; [exact B3|]. split; [exact B4|]. split; [exact B5|]. split; [exact B6|]. split; [exact B1|exact B2].
+Qed.
+
+(* Corrected statements.  Differences from [refines_clone_within] / [refines_clone_ext] of Rep.v:
+   (1) [a_clone_p] instead of [a_clone]: a copy's properties are [props_of_list] of the original's
+       (the concrete clone goes through an InstanceBuilder);
+   (2) [uids_below nu sa] for the external case (copies keep free source UniqueIds);
+   (3) the invariant [props_nodup] (no instance has a repeated property key), assumed and re-established:
+       without it [props_of_list] may expose a UniqueId hidden behind an earlier duplicate key, which
+       [uids_below] (stated through [get_uid]) does not bound. *)
+Definition refines_clone_within' : Prop := forall d a nu nr rs a' nu' nr' roots,
+  Rep d a -> uids_below nu a -> refs_below nr a -> prefs_below nr a -> props_nodup a ->
+  a_clone_p a a nu nr rs = Some (a', nu', nr', roots) ->
+  exists d', dom_clone None d nu nr rs = Ok (d', nu', nr', roots) /\ Rep d' a' /\
+             uids_below nu' a' /\ refs_below nr' a' /\ prefs_below nr' a' /\ props_nodup a' /\
+             nu <= nu' /\ nr <= nr'.
+
+Definition refines_clone_ext' : Prop := forall s t sa ta nu nr rs ta' nu' nr' roots,
+  Rep s sa -> Rep t ta -> uids_below nu sa -> uids_below nu ta -> refs_below nr sa -> refs_below nr ta ->
+  prefs_below nr sa -> prefs_below nr ta -> props_nodup sa -> props_nodup ta ->
+  a_clone_p sa ta nu nr rs = Some (ta', nu', nr', roots) ->
+  exists t', dom_clone (Some s) t nu nr rs = Ok (t', nu', nr', roots) /\ Rep t' ta' /\
+             uids_below nu' ta' /\ refs_below nr' ta' /\ prefs_below nr' ta' /\ props_nodup ta' /\
+             nu <= nu' /\ nr <= nr'.
+
+Lemma clone_ext_refines' : refines_clone_ext'.
+Proof.
+  intros s t sa ta nu nr rs ta' nu' nr' roots HRs HRt Hus Hut Hrs Hrt Hps Hpt Hns Hnt H.
+  exact (clone_generic (Some s) s t sa ta nu nr rs ta' nu' nr' roots eq_refl HRs HRt Hus Hut Hrs Hrt Hps Hpt Hns Hnt H).
+Qed.
+
+Lemma clone_within_refines' : refines_clone_within'.
+Proof.
+  intros d a nu nr rs a' nu' nr' roots HR Hu Hr Hp Hn H.
+  exact (clone_generic None d d a a nu nr rs a' nu' nr' roots eq_refl HR HR Hu Hu Hr Hr Hp Hp Hn Hn H).
+Qed.
+
+Print Assumptions clone_ext_refines'.
+Print Assumptions clone_within_refines'.
